@@ -99,6 +99,11 @@ def main(argv=None):
             if v['reproduced'] is False:
                 unreproduced.append(v)
                 continue
+            if ':harness:' in v['sig']:
+                # a harness self-check (the session it asked for was not negotiated, the state it wanted was not reached ...):
+                # the harness could not set up what it judges, so nothing is claimed either way - never a property violation
+                inconclusive.append('%s: harness self-check failed: %s %s' % (v['unit'], v['sig'], json.dumps(v.get('info'))[:400]))
+                continue
             hit = None
             for k in known:
                 if fnmatch.fnmatch(v['sig'], k['sig']):
